@@ -116,14 +116,76 @@ uint8 = _IntDT('uint8')
 int16 = _IntDT('int16')
 
 
+class _FloatDTMeta(type):
+    """np.float64 / np.complex128 stand-ins: usable as dtype (-> object arrays), as cast (identity on symbols),
+    in isinstance checks (delegated to the real scalar type) and subscriptable (`np.complex128[::1]` in signatures)."""
+
+    def __instancecheck__(cls, inst):
+        return isinstance(inst, cls._real) or (cls._real is _np.float64 and False)
+
+    def __subclasscheck__(cls, sub):
+        try:
+            return issubclass(sub, cls._real)
+        except TypeError:
+            return False
+
+    def __call__(cls, x=0.0, *a, **k):
+        if isinstance(x, Sym):
+            return x
+        if isinstance(x, _np.ndarray) and x.dtype == object:
+            return x
+        return cls._real(x, *a, **k)
+
+    def __getitem__(cls, item):
+        return cls
+
+    def __eq__(cls, o):
+        if o is cls or o is cls._real:
+            return True
+        try:
+            return _np.dtype(o) == _np.dtype(cls._real)
+        except TypeError:
+            return False
+
+    def __ne__(cls, o):
+        return not cls.__eq__(o)
+
+    def __hash__(cls):
+        return hash(cls._real)
+
+    def __repr__(cls):
+        return '<shim %s>' % cls._real.__name__
+
+
+class float64(metaclass=_FloatDTMeta):
+    _real = _np.float64
+
+
+class complex128(metaclass=_FloatDTMeta):
+    _real = _np.complex128
+
+
+class float32(metaclass=_FloatDTMeta):
+    _real = _np.float32
+
+
+float_ = float64
+complex_ = complex128
+double = float64
+
+
 def _map_dtype(dtype):
     if isinstance(dtype, _IntDT):
         return _np.int64
+    if isinstance(dtype, _FloatDTMeta):
+        return dtype._real
     return dtype
 
 
 def _floatish(dtype):
     if dtype is None:
+        return True
+    if isinstance(dtype, _FloatDTMeta):
         return True
     if isinstance(dtype, _IntDT):
         return False
